@@ -26,17 +26,18 @@ type Options struct {
 }
 
 type PathResult struct {
-	Outcome   string // ok, violation, panic, unsupported, infeasible, budget, solver-unknown, engine, done
-	Msg       string
-	Trace     []int32
-	Forks     []int32
-	Inputs    map[string]interface{}
-	Reached   []string
-	Observed  []string
-	Violation *Violation
-	Steps     int64
-	Notes     map[string]int
-	Tables    map[string][]string
+	Outcome          string // ok, violation, panic, unsupported, infeasible, budget, solver-unknown, engine, done
+	Msg              string
+	Trace            []int32
+	Forks            []int32
+	Inputs           map[string]interface{}
+	Reached          []string
+	Observed         []string
+	ObservedSymbolic bool
+	Violation        *Violation
+	Steps            int64
+	Notes            map[string]int
+	Tables           map[string][]string
 }
 
 type Report struct {
@@ -130,6 +131,7 @@ func (w *World) RunPath(fn *ssa.Function, s *smt.Solver, pp PendingPath, maxStep
 	res.Inputs = p.InputValues()
 	res.Reached = p.ReachedList()
 	res.Observed = p.Observed
+	res.ObservedSymbolic = p.ObservedSymbolic
 	res.Violation = p.Violation
 	res.Steps = p.Steps
 	res.Notes = p.Notes
